@@ -36,6 +36,7 @@ func checkC14(ctx *Ctx, r *Report) {
 	c14FourthRound(ctx, r)
 	c14FifthRound(ctx, r)
 	c14GoConverterBuffer(ctx, r)
+	c14SixthRound(ctx, r)
 	c02GoRuntimeDefines(ctx, r)
 }
 
@@ -897,12 +898,42 @@ func c14FourthRound(ctx *Ctx, r *Report) {
 				return true
 			}
 			reads = true
+			// every branch made for arguments that are not direct values prepares the argument (a branch that does not
+			// leaves builders, lists, maps and unions unprinted); without such branches, any prepare_arg will do
+			branches, prepared := 0, 0
 			walkTmpl(rn.List, func(q parse.Node) bool {
-				if tn, ok := q.(*parse.TemplateNode); ok && tn.Name == "prepare_arg" {
-					prepares = true
+				in, ok := q.(*parse.IfNode)
+				if !ok {
+					return true
 				}
-				return true
+				for _, b := range ifChain(in) {
+					if b.cond == nil || !strings.Contains(b.cond.String(), "not $arg.Direct") {
+						continue
+					}
+					branches++
+					found := false
+					walkTmpl(b.body, func(k parse.Node) bool {
+						if tn, ok := k.(*parse.TemplateNode); ok && tn.Name == "prepare_arg" {
+							found = true
+						}
+						return true
+					})
+					if found {
+						prepared++
+					}
+				}
+				return false
 			})
+			if branches > 0 {
+				prepares = prepared == branches
+			} else {
+				walkTmpl(rn.List, func(q parse.Node) bool {
+					if tn, ok := q.(*parse.TemplateNode); ok && tn.Name == "prepare_arg" {
+						prepares = true
+					}
+					return true
+				})
+			}
 			return true
 		})
 		if !reads {
@@ -1154,7 +1185,14 @@ func c14FifthRound(ctx *Ctx, r *Report) {
 				}
 			case *ast.IfStmt:
 				// `if _, mapped := mappedArguments[name]; mapped { continue }`
-				if as, ok := x.Init.(*ast.AssignStmt); ok && len(as.Rhs) == 1 && endsInExit(x.Body) {
+				endsInContinue := false
+				if len(x.Body.List) > 0 {
+					if bs, ok := x.Body.List[len(x.Body.List)-1].(*ast.BranchStmt); ok && bs.Tok == token.CONTINUE {
+						endsInContinue = true
+					}
+				}
+				// (a lookup that *returns* — the position of an argument — is not the test that skips an assignment)
+				if as, ok := x.Init.(*ast.AssignStmt); ok && len(as.Rhs) == 1 && endsInContinue {
 					if ix, ok := ast.Unparen(as.Rhs[0]).(*ast.IndexExpr); ok {
 						if _, isMap := info.TypeOf(ix.X).Underlying().(*types.Map); isMap && strings.Contains(exprString(ix.Index), ".Argument.Name") && !dedup.IsValid() {
 							dedup = x.Pos()
@@ -1275,4 +1313,157 @@ func c14GoConverterBuffer(ctx *Ctx, r *Report) {
 	r.Count("buffer declarations of the Go converter template", 1)
 	r.Check(conditional, "skeleton/go-converter-buffer-conditional", "golang converter template declares its buffer", token.NoPos, ts.file["converter"]+": the buffer is declared under the test that there are mappings",
 		ts.file["converter"]+": `var buffer strings.Builder` is declared whatever the builder: for a builder without options (`OnlyConst: {kind: \"x\"}`) nothing uses it — declared and not used: buffer, the package does not compile")
+}
+
+// c14SixthRound — fourth hunt:
+//   - the arguments of an option are printed in the order the option *declares* them: mappingForOption orders the
+//     assignments it walks after the positions of their arguments in option.Args;
+//   - the elements of a list or of a map keep their declared type in the printed literal: a nullable scalar element is a
+//     pointer or nil there (the Go template has an element-level preparation that knows about Nullable);
+//   - the guards of a constructor argument are tested whatever the kind of the argument, not only for direct values.
+func c14SixthRound(ctx *Ctx, r *Report) {
+	n := 0
+	if fn := ctx.LookupMethod("internal/languages", "ConverterGenerator", "mappingForOption"); fn == nil {
+		r.Undecided("anchor lost: languages.ConverterGenerator.mappingForOption")
+	} else if fd, p := ctx.DeclOf(fn); fd != nil {
+		info := p.TypesInfo
+		positions := map[types.Object]bool{} // maps filled from a range over option.Args
+		ast.Inspect(fd.Body, func(m ast.Node) bool {
+			rs, ok := m.(*ast.RangeStmt)
+			if !ok {
+				return true
+			}
+			if ff := fieldOf(info, rs.X); ff == nil || ff.Name() != "Args" {
+				return true
+			}
+			ast.Inspect(rs.Body, func(k ast.Node) bool {
+				if as, ok := k.(*ast.AssignStmt); ok && len(as.Lhs) == 1 {
+					if ix, ok := ast.Unparen(as.Lhs[0]).(*ast.IndexExpr); ok {
+						if id, ok := ast.Unparen(ix.X).(*ast.Ident); ok {
+							positions[objOf(info, id)] = true
+						}
+					}
+				}
+				return true
+			})
+			return true
+		})
+		ordered := false
+		ast.Inspect(fd.Body, func(m ast.Node) bool {
+			c, ok := m.(*ast.CallExpr)
+			if !ok || len(c.Args) != 2 {
+				return true
+			}
+			f := callee(info, c)
+			if f == nil || f.Pkg() == nil || f.Pkg().Path() != "sort" || !strings.HasPrefix(f.Name(), "Slice") {
+				return true
+			}
+			// the order is computed from the positions (directly, or through a local function that reads them)
+			uses := false
+			var scan func(n ast.Node, depth int)
+			scan = func(n ast.Node, depth int) {
+				ast.Inspect(n, func(k ast.Node) bool {
+					if id, ok := k.(*ast.Ident); ok {
+						if positions[objOf(info, id)] {
+							uses = true
+						}
+						if depth < 2 {
+							// a local closure
+							ast.Inspect(fd.Body, func(q ast.Node) bool {
+								if as, ok := q.(*ast.AssignStmt); ok && as.Tok == token.DEFINE && len(as.Lhs) == 1 && len(as.Rhs) == 1 {
+									if lid, ok := as.Lhs[0].(*ast.Ident); ok && info.Defs[lid] == objOf(info, id) {
+										if fl, ok := as.Rhs[0].(*ast.FuncLit); ok {
+											scan(fl.Body, depth+1)
+										}
+									}
+								}
+								return true
+							})
+						}
+					}
+					return true
+				})
+			}
+			scan(c.Args[1], 0)
+			if uses {
+				ordered = true
+			}
+			return true
+		})
+		n++
+		r.Check(ordered, "order/arguments-in-declaration-order", "languages.ConverterGenerator.mappingForOption orders the arguments it prints", fd.Pos(), "the assignments are sorted after the position of their argument in option.Args",
+			"mappingForOption prints one argument per assignment, in the order of the assignments: an option range(min, max) whose assignments are listed max first is printed Range(200, 1) for {min: 1, max: 200} — the rebuilt object has min and max swapped")
+	}
+	ts, err := loadTemplates(ctx, "golang")
+	if err != nil {
+		r.Undecided("templates of golang: %v", err)
+		return
+	}
+	// elements
+	if tree := ts.trees["prepare_arg"]; tree == nil {
+		r.Undecided("anchor lost: golang template \"prepare_arg\"")
+	} else {
+		direct := ""
+		walkTmpl(tree.Root, func(q parse.Node) bool {
+			wn, ok := q.(*parse.WithNode)
+			if !ok || (!strings.Contains(wn.Pipe.String(), ".Arg.Array") && !strings.Contains(wn.Pipe.String(), ".Arg.Map")) {
+				return true
+			}
+			walkTmpl(wn.List, func(k parse.Node) bool {
+				if tn, ok := k.(*parse.TemplateNode); ok && tn.Name == "prepare_arg" && tn.Pipe != nil && strings.Contains(tn.Pipe.String(), ".ForArg") {
+					direct = wn.Pipe.String()
+				}
+				return true
+			})
+			return false
+		})
+		aware := false
+		if et := ts.trees["prepare_element"]; et != nil {
+			text := tmplText(et.Root)
+			walkTmpl(et.Root, func(k parse.Node) bool {
+				if in, ok := k.(*parse.IfNode); ok && strings.Contains(in.Pipe.String(), "Nullable") {
+					aware = true
+				}
+				return true
+			})
+			aware = aware && strings.Contains(text, "nil")
+		}
+		n++
+		r.Check(direct == "" && aware, "skeleton/go-converter-nullable-elements", "golang converter template prepares the elements of lists and maps", token.NoPos, ts.file["prepare_arg"]+": elements go through a preparation that writes nullable scalars as pointers or nil",
+			ts.file["prepare_arg"]+": the elements of a list / map ("+direct+") are prepared like plain arguments, i.e. dereferenced: `items: [...(string | null)]` is printed []*string{\"a\", \"b\"} — does not compile — and a null element makes the converter panic")
+	}
+	// constructor arguments of every kind
+	if tree := ts.trees["converter"]; tree == nil {
+		r.Undecided("anchor lost: golang template \"converter\"")
+	} else {
+		guarded := false
+		walkTmpl(tree.Root, func(q parse.Node) bool {
+			rn, ok := q.(*parse.RangeNode)
+			if !ok || !strings.Contains(rn.Pipe.String(), ".Converter.ConstructorArgs") {
+				return true
+			}
+			walkTmpl(rn.List, func(k parse.Node) bool {
+				in, ok := k.(*parse.IfNode)
+				if !ok {
+					return true
+				}
+				cond := in.Pipe.String()
+				if strings.Contains(cond, "not $arg.Direct") && strings.Contains(cond, "Guards") {
+					walkTmpl(in.List, func(g parse.Node) bool {
+						if tn, ok := g.(*parse.TemplateNode); ok && tn.Name == "guards" {
+							guarded = true
+						}
+						return true
+					})
+				}
+				return true
+			})
+			return true
+		})
+		n++
+		r.Check(guarded, "flow/constructor-args-guarded", "golang converter template tests the guards of constructor arguments that are not direct values", token.NoPos, ts.file["converter"]+": a builder / list / map / union constructor argument is read under its guards",
+			ts.file["converter"]+": only direct constructor arguments are read under their guards: `inner?: Inner` promoted to the constructor gives `constructorArg0 := InnerConverter(*input.Inner)` — a nil dereference for every value without inner")
+	}
+	r.Count("hunted clauses of the converter (6th round)", n)
+	r.Floor("hunted clauses of the converter (6th round)", 3)
 }
